@@ -313,6 +313,17 @@ class Ctx:
         })
         if extra:
             cov.update(extra)
+        # schema hygiene: typed keys must have their schema types
+        if "exhaustive" in cov and not isinstance(cov["exhaustive"], bool):
+            cov["exhaustive_scopes"] = cov.pop("exhaustive")
+        for k in ("states", "transitions", "traces_validated_against_impl", "programs", "obligations", "discharged",
+                  "evaluations", "distinct_nontrivial", "disagreements_checked"):
+            if k in cov and not isinstance(cov[k], int):
+                cov[k + "_detail"] = cov.pop(k)
+        if "samples" in cov and not isinstance(cov["samples"], list):
+            cov["samples"] = [cov["samples"]]
+        if "explanation" in cov and not isinstance(cov["explanation"], str):
+            cov["explanation"] = json.dumps(cov["explanation"])
         ev = {
             "property_id": self.prop,
             "tier": self.tier,
